@@ -183,6 +183,15 @@ fn cases(thorough: bool) -> Vec<Case> {
             }
         }
     }
+    // bytes that are not UTF-8: pipelines carry bytes, and so does a command substitution (a shell
+    // variable can hold any byte but NUL)
+    for n in [3usize, 513, 1500] {
+        let data = payload(n, 1, 7780);
+        let val = strip_nl(data.clone());
+        let g = format!("gen {n} 1 7780");
+        out.push(Case { script: format!("{g} | cat 300 | hsink 700"), expected: m(vec![("M.3", hs(&data))]), size: n });
+        out.push(Case { script: format!("x=$({g}); chk \"$x\""), expected: m(vec![("M", ck(&val))]), size: n });
+    }
     // far beyond the pipe capacity (1024 bytes in the simulator): 10x, 20x, 64 KiB + 1
     let big: &[usize] = if thorough { &[10240, 20000, 65537] } else { &[10240] };
     for &n in big {
@@ -297,6 +306,8 @@ pub fn run(tier: Tier) -> i32 {
                             return false;
                         }
                         let script = if c.script.chars().count() > 300 { format!("{}…", c.script.chars().take(300).collect::<String>()) } else { c.script.clone() };
+                        // payloads that are not UTF-8 through a command substitution: a class of its own
+                        let key = if key == "data" && c.script.contains(" 7780") && c.script.contains("$(") { "data-not-utf8-through-command-substitution".to_string() } else { key };
                         ctx.violation(
                             &format!("c14:{key}"),
                             &what,
